@@ -458,6 +458,14 @@ O(id='uper_open_type_put.leak', props=['C14', 'C07'], kind='bounded', entry='h_u
   bound='an open type whose contents are 0..8 bits, written at the end of the 32-octet scratch space; callback may fail at any call; every allocation may fail',
   min_props=50, timeout=900, tier='experimental')
 
+# ---------------------------------------------------------------- NULL through the encoder API
+O(id='NULL_asn_encode', props=['C07', 'C02'], kind='bounded', entry='h_NULL_asn_encode', harness='harness/h_null.c', units=[SK + 'NULL.c', SK + 'asn_application.c'],
+  functions=['NULL_encode_der', 'NULL_encode_oer', 'asn_encode', 'asn_encode_internal', 'der_write_tags'],
+  link=[SK + f for f in ('asn_application.c', 'NULL.c', 'BOOLEAN.c', 'der_encoder.c', 'oer_encoder.c', 'per_encoder.c', 'xer_encoder.c', 'asn_bit_data.c', 'per_support.c', 'oer_support.c', 'ber_tlv_tag.c', 'ber_tlv_length.c', 'asn_codecs_prim.c', 'ber_decoder.c', 'asn_internal.c')],
+  fp_restrict=[(r'callback_failure_catch_cb::1::key\.callback', ['vf_cb']), (r'::cb$|consume_bytes$|::callback$', ['callback_failure_catch_cb']),
+               (r'der_encoder\)$', ['NULL_encode_der']), (r'oer_encoder\)$', ['NULL_encode_oer'])],
+  unwind=10, bound='the NULL type through asn_encode for DER and OER, callback failing at any call', min_props=30, timeout=600)
+
 # ---------------------------------------------------------------- NativeReal over DER
 O(id='NativeReal_encode_der', props=['C02', 'C13', 'C14'], kind='width', entry='h_NativeReal_encode_der', harness='harness/h_nativereal.c',
   units=[SK + 'NativeReal.c', SK + 'REAL.c'], functions=['NativeReal_encode_der', 'asn_double2REAL', 'der_encode_primitive'], proves=['NativeReal_encode_der'],
